@@ -174,7 +174,26 @@ def gen_realbias(r, c):
     (bypasses by default; with the user's setting on/off)"""
     c["tsf"], c["same"], c["sub"], c["damping"] = 1, 0, 0, 0.0
     c["lower"], c["upper"], c["rlo"], c["rup"], c["per"] = 0.0, 2.0, 0, 0, 0
-    kind = r.choice(["harmonic", "linear", "harmonicWalls", "harmonicWalls", "harmonicWalls", "abf", "metadynamics", "abmd", "opes_metad", "histogram", "alb"])
+    kind = r.choice(["harmonic", "linear", "harmonicWalls", "harmonicWalls", "harmonicWalls", "abf", "metadynamics", "abmd", "opes_metad", "histogram", "alb", "twowalls", "twowalls"])
+    if kind == "twowalls":
+        # two biases of the same kind on the variable, one bypassing the coordinate and one acting on it; one of them is deleted in mid-run
+        bs = []
+        for n_, (user, lo_, up_) in enumerate([(None, 0.75, 1.25), (False, 0.875, 1.125)]):
+            k_ = r.choice([0.5, 1.0, 2.0])
+            body = ["name b%d" % n_, "lowerWalls %r" % lo_, "upperWalls %r" % up_, "forceConstant %r" % k_] + ([] if user is None else ["bypassExtendedLagrangian off"])
+            bs.append({"kw": "harmonicWalls", "k": k_, "user": user, "lo": lo_, "up": up_, "tsf": 1, "body": body, "name": "b%d" % n_})
+        c["biases"] = bs
+        x = V.dyadic(r, 0.5, 1.5, bits=6)
+        ev = []
+        for t in range(r.randint(12, 20)):
+            if t > 0 and r.random() < 0.8:
+                x = min(1.9, max(0.1, x + V.dyadic(r, -0.25, 0.25, bits=6)))
+            ev.append({"boundary": 0, "running": 1, "x": x, "fb": 0.0, "fba": 0.0})
+        c["events"] = ev
+        c["gauss"] = [0.0]
+        if r.random() < 0.7:
+            c["delete_bias"] = (r.randint(3, len(ev) - 3), r.choice([0, 1]))
+        return c
     generic = {"abf": ["fullSamples 2", "historyFreq 0"], "metadynamics": ["hillWeight 0.5", "hillWidth 1.0", "newHillFrequency 2"],
                "abmd": ["forceConstant 2.0", "stoppingValue 1.75"], "opes_metad": ["barrier 5", "newHillFrequency 2", "gaussianSigma 0.2"], "histogram": [],
                "alb": ["centers 1.0", "updateFrequency 4"]}
@@ -236,26 +255,40 @@ def bias_force(c, b, bypass, x_rep, x_actual):
 
 
 def fill_real_forces(c, recs, table):
-    """forces that the real bias applied at each step, routed by its bypass flag (table = regenerated from the binary)"""
-    b = c["biases"][0]
-    ent = table.get(b["kw"].lower(), (0, 0))
-    bypass = bool(ent[1]) if b["user"] is None else (b["user"] and bool(ent[0]))
+    """forces that the real biases applied at each step, each routed by its bypass flag (table = regenerated from the binary) and summed"""
+    flags = []
+    for b in c["biases"]:
+        ent = table.get(b["kw"].lower(), (0, 0))
+        flags.append(bool(ent[1]) if b["user"] is None else (b["user"] and bool(ent[0])))
     for (j_, it_, aw_), e, rec in zip(awake_steps(c), c["events"], recs):
         if rec is None:
             return False
-        bf = [t_ for t_ in rec.get("bf", []) if t_[0] == b["kw"].lower()]
-        if len(bf) != 1 or bool(bf[0][2]) != bypass:
-            c["bf_problem"] = "bias object reports %r, the table/user setting gives bypass=%r" % (bf, bypass)
-            return False
-        if b.get("generic"):
-            F = bf[0][1]
-        else:
-            F = b.get("tsf", 1) * bias_force(c, b, bypass, rec["x_rep"], e["x"]) if it_ % b.get("tsf", 1) == 0 else 0.0
-            if not close(F, bf[0][1]):
-                c["bf_problem"] = "documented force %r on the value the bias must see, the bias computed %r" % (F, bf[0][1])
+        alive = [n_ for n_ in range(len(c["biases"])) if not (c.get("delete_bias") and c["delete_bias"][1] == n_ and j_ >= c["delete_bias"][0])]
+        fb = fba = 0.0
+        for kw in sorted(set(c["biases"][n_]["kw"] for n_ in alive)):
+            mine = [n_ for n_ in alive if c["biases"][n_]["kw"] == kw]
+            bf = [t_ for t_ in rec.get("bf", []) if t_[0] == kw.lower()]
+            if len(bf) != len(mine) or any(bool(t_[2]) != flags[n_] for t_, n_ in zip(bf, mine)):
+                c["bf_problem"] = "bias objects report %r, the table/user settings give bypass=%r for the %d live biases of that kind" % (bf, [flags[n_] for n_ in mine], len(mine))
                 return False
-        e["fb"], e["fba"] = (0.0, F) if bypass else (F, 0.0)
-    c["bypass"] = bypass
+            for t_, n_ in zip(bf, mine):
+                b = c["biases"][n_]
+                if b.get("generic"):
+                    F = t_[1]
+                else:
+                    F = b.get("tsf", 1) * bias_force(c, b, flags[n_], rec["x_rep"], e["x"]) if it_ % b.get("tsf", 1) == 0 else 0.0
+                    if not close(F, t_[1]):
+                        c["bf_problem"] = "documented force %r of bias %d on the value it must see, the bias computed %r" % (F, n_, t_[1])
+                        return False
+                if flags[n_]:
+                    fba += F
+                else:
+                    fb += F
+        if [t_ for t_ in rec.get("bf", []) if t_[0] not in set(c["biases"][n_]["kw"].lower() for n_ in alive)]:
+            c["bf_problem"] = "a deleted bias is still reported: %r" % (rec.get("bf"),)
+            return False
+        e["fb"], e["fba"] = fb, fba
+    c["bypass"] = flags[0]
     c["nonzero_bias_force"] = any(e_["fb"] != 0.0 or e_["fba"] != 0.0 for e_ in c["events"])
     return True
 
@@ -338,6 +371,8 @@ def scenario(c, tag):
             break
         if c.get("setstep_at") and j == c["setstep_at"][0]:
             L.append("setstep %d" % c["setstep_at"][1])
+        if c.get("delete_bias") and j == c["delete_bias"][0]:
+            L.append("script cv bias b%d delete" % c["delete_bias"][1])
         if c.get("dt_change") and j == c["dt_change"][0]:
             L.append("dt %r" % c["dt_change"][1])
         L += ev_lines(e)
@@ -1071,6 +1106,8 @@ def check(run):
             ok_, recs_ = impl.get(tag, (False, []))
             if ok_ and len(recs_) == len(c["events"]) and fill_real_forces(c, recs_, table):
                 jobs[n_] = (tag, c, L, model_line(c), fe)
+                if len(c["biases"]) > 1:
+                    run.dist("real-bias: two biases of one kind (bypassing + on the coordinate)%s" % (", one deleted in mid-run" if c.get("delete_bias") else ""))
                 if c["biases"][0].get("tsf", 1) > 1:
                     run.dist("real-bias with its own timeStepFactor (sleeps between its steps)")
                 run.dist("real-bias:%s:%s%s" % (c["biases"][0]["kw"], "bypass" if c["bypass"] else "on-coordinate", "" if c["nonzero_bias_force"] else ":zero-force"))
